@@ -33,6 +33,9 @@ def run(ctx, report):
     report.section("written documents", writer_doc_fold.run, ctx, report, ("cues", "grammar", "text"),
                    {"cues": "2", "grammar": "2", "text": "1"},
                    {"cues": "R-DOC-CUES", "text": "R-DOC-TEXT", "grammar": "R-DOC-GRAMMAR"})
+    from . import markup_writer_fold
+    report.section("written markup documents", markup_writer_fold.run, ctx, report, {
+        "wellformed": ("R-DOC-GRAMMAR", "2"), "text": ("R-DOC-TEXT", "1"), "sami_text": ("R-DOC-TEXT", "1")})
     report.not_decided += ["what a conformant XML/HTML parser makes of the DFXP/SAMI output (no parser is run; the SRT, "
                            "WebVTT and MicroDVD writers are folded on small caption sets and read back by reference parsers)",
                            "text whose own characters are line terminators; whitespace normalisation"]
